@@ -1,21 +1,21 @@
----- MODULE MC_C01_quick_c_poly_const ----
+---- MODULE MC_C01_quick_e_complex ----
 EXTENDS CircuitSys
-c_Dom == <<3, 2>>
+c_Dom == <<2, 2>>
 c_KSet == {1, 2}
 c_MaxK == 8
 c_MaxL == 4
 c_MaxIn == 2
-c_InKindSeq == <<"poly", "const", "clog">>
-c_InnerKinds == {"had", "kron", "sum"}
+c_InKindSeq == <<"emb", "poly">>
+c_InnerKinds == {"had", "kron", "mix", "sum"}
 c_MaxAr == 2
 c_FreeOrder == FALSE
 c_MaxOuts == 2
 c_MaxBases == 1
 c_MaxOps == 0
 c_OpSet == {}
-c_Scheme == 2
+c_Scheme == 3
 c_OnlySD == FALSE
-c_PolyDeg == 2
+c_PolyDeg == 1
 c_DiffK == {1}
 c_MaxDeg == 2
 c_Invalid == FALSE
@@ -26,7 +26,7 @@ c_GradMod == 0
 c_QueryOn == FALSE
 c_J == 1
 c_EmitOps == {0}
-c_EmitMod == 30
+c_EmitMod == 60
 c_EmitRes == 0
 c_EmitSmall == 3
 ====
